@@ -11,7 +11,11 @@ call token opens only at its own method's endpoint, so a cold worker rejects a c
 namespace VgiVerif.C14.Findings
 open VgiVerif.C14 VgiVerif.Gen.C14
 
-def pinned : Shape := { initAnchor := .now, missAnchor := .now, hitChecksType := false, hitChecksMethod := false }
+def pinned : Shape :=
+  { initAnchor := .now, missAnchor := .now, hitChecksType := false, hitChecksMethod := false, hitRefreshes := false }
+
+/-- the repaired call sites with an LRU that also *refreshes the expiry* on a hit (sliding expiry) -/
+def sliding : Shape := { Gen.C14.shape with hitRefreshes := true }
 
 def cfgOf (sh : Shape) : Cfg :=
   { shape := sh, ttl := 10, tps := 1, declares := fun m t => m == t, decodes := fun _ _ => true }
@@ -70,5 +74,21 @@ theorem pinned_not_transparent : ¬ Spec.Transparent (deployment (cfgOf pinned))
   have e : (Outcome.served 0 ⟨7, some 0, 0⟩ ⟨0, alice, 9, 1, 0⟩ false) = Outcome.rejected .tokenRejected :=
     h1.1.symm.trans (this.trans h1.2)
   exact absurd e (by simp)
+
+/-- a stream kept busy on the worker that served `/init`: a hit at t=6 re-stores the entry with 6 + ttl, so at t=11 — past
+    the call token's `created_at + ttl = 10`, cursor minted at 6 still fresh — the warm worker serves what a cold one refuses -/
+def busyHist : List Step := [.init 0 alice 0 7 (some 0), .tick 6, .cont 0 ⟨alice, 0, .issued 0, .issued 0, false⟩, .tick 5]
+def busyReq : Req := ⟨alice, 0, .issued 1, .issued 0, false⟩
+def busyWorld (sh : Shape) : World := run (cfgOf sh) (World.start [2, 2] 0) busyHist
+
+theorem sliding_expiry_outlives_token :
+    (serveCont (cfgOf sliding) (busyWorld sliding) 0 busyReq).2 = .served 0 ⟨7, some 0, 0⟩ ⟨0, alice, 6, 1, 0⟩ false ∧
+    (serveCont (cfgOf sliding) (busyWorld sliding).emptied 0 busyReq).2 = .rejected .tokenRejected := by
+  decide +kernel
+
+theorem fixed_expiry_does_not :
+    (serveCont (cfgOf Gen.C14.shape) (busyWorld Gen.C14.shape) 0 busyReq).2 = .rejected .tokenRejected ∧
+    (serveCont (cfgOf Gen.C14.shape) (busyWorld Gen.C14.shape).emptied 0 busyReq).2 = .rejected .tokenRejected := by
+  decide +kernel
 
 end VgiVerif.C14.Findings
